@@ -448,7 +448,13 @@ def _same(a, b):
 def _is_one(a):
     if isinstance(a, int):
         return a == 1
-    return bool(S(a) == 1)
+    r = bool(S(a) == 1)
+    if r:
+        # lemma: a product of extents (non-negative integers) equal to 1 has every factor equal to 1
+        for f in (getattr(a, "factors", None) or ()):
+            if isinstance(f, Sym):
+                core.define(z3.Implies(z3.And(*[_lift(g) >= 0 for g in a.factors]), f.t == 1))
+    return r
 
 
 class DType:
@@ -624,7 +630,10 @@ class SArr:
         shape, fmap = _index_map(self.shape, idx)
         if shape is None:     # scalar element
             return self.elem(fmap(())[0])
-        return self._view(shape, fmap)
+        v = self._view(shape, fmap)
+        if self.base is None:
+            v._view_of = (self, idx)      # lets in-place arithmetic on the view write through (numpy semantics)
+        return v
 
     def __setitem__(self, idx, value):
         if self.readonly:
@@ -753,7 +762,12 @@ class SArr:
             raise SValueError("non-broadcastable output operand")
         snap = res._snapshot()
         if self.base is not None and self.wmap is not None:
-            raise Unsupported("in-place arithmetic on a view")
+            vo = self.__dict__.get("_view_of")
+            if vo is None:
+                raise Unsupported("in-place arithmetic on a view of a view")
+            parent, idx = vo
+            parent[idx] = res.copy()       # write-through: the view keeps reading its (now updated) base
+            return self
         self._elem = snap
         return self
 
@@ -1066,7 +1080,8 @@ def _inverse_index(shape, idx):
         n = shape[d]
         if isinstance(i, slice):
             start, step, length = _norm_slice(i, n)
-            comps.append(("slice", start, step, length, nview))
+            full = i.start is None and i.stop is None and isinstance(step, int) and step == 1
+            comps.append(("slice", start, step, length, nview, full))
             nview += 1
         else:
             iv = S(i)
@@ -1083,10 +1098,12 @@ def _inverse_index(shape, idx):
             if c[0] == "int":
                 conds.append(kd == _lift(c[1]))
             else:
-                _, start, step, length, pos = c
+                _, start, step, length, pos, full = c
                 st = _lift(step)
                 cst = concrete(S(step))
-                if cst == 1:
+                if full:
+                    j = kd              # the whole axis: every valid element index is inside the window
+                elif cst == 1:
                     j = z3.simplify(kd - _lift(start))
                     conds.append(z3.And(j >= 0, j < _lift(length)))
                 elif cst == -1:
@@ -1694,6 +1711,30 @@ def _np_sin(x):
     return _trig(_scalar(x))[1]
 
 
+_SINH = z3.Function("sinh", z3.RealSort(), z3.RealSort())
+
+
+def _np_sinh(x):
+    """sinh on real values: an uninterpreted function (only  x > 0 => sinh x > 0  is built in, instance-wise)"""
+    def one(v):
+        t = core._to_real(v.t)
+        r = _SINH(t)
+        core.define(z3.Implies(t > 0, r > 0))
+        return Sym(r)
+    if isinstance(x, SArr):
+        return elementwise(x, lambda v: LF(C(one(v.value()._cmp_real()))), x.dtype)
+    return one(S(_scalar(x)))
+
+
+def _np_arange(n, *a, dtype=None, **kw):
+    if a:
+        raise Unsupported("arange(start, stop, ...)")
+    n = _ext(S(n))
+    r = SArr((n,), lambda k: LF(C(Sym(k[0]))), as_dtype(dtype) if dtype is not None else IDT)
+    r.struct = ("affine", LF(C0), LF(C1))
+    return r
+
+
 def _exp_value(v):
     v = C.of(v)
     if not z3.is_true(z3.simplify(v.re == 0)):
@@ -1856,6 +1897,8 @@ class _Numpy(_NS):
     cos = staticmethod(_np_cos)
     sin = staticmethod(_np_sin)
     exp = staticmethod(_np_exp)
+    sinh = staticmethod(_np_sinh)
+    arange = staticmethod(_np_arange)
     angle = staticmethod(_np_angle)
     column_stack = staticmethod(_np_column_stack)
     imag = staticmethod(_np_imag)
